@@ -1,5 +1,6 @@
 import ZapVerif.Model.Writers
 import ZapVerif.Proofs.TransMultiWS
+import ZapVerif.Proofs.TransLocked
 import ZapVerif.Proofs.Merge
 import ZapVerif.Gen.Delegates
 /-! # C13 — zap's writers and WriteSyncer combinators honour the io.Writer contract -/
@@ -168,7 +169,7 @@ theorem multiWrite_iter_matches_source (p : Bytes) (sinks : List Val) (rec : Stm
   obtain ⟨⟨c, errs, ws⟩, t⟩ := a
   obtain ⟨o, j⟩ := y
   by_cases h0 : i = 0 <;> by_cases h1 : o.n < c <;> cases t <;> cases he : o.err <;>
-    simp [Write_loop0, wAbs, wTail, wStep, wstep, h0, h1, he]
+    simp [Write_loop0, wAbs, wTail, wStep, wstep, h0, h1, he, traceName]
 
 /-- the whole loop of `multiWriteSyncer.Write` is the model's fold, for every number of sinks; no fuel is needed -/
 theorem multiWrite_loop_matches_source (p : Bytes) (outs : List Writers.Out) (rec : Stmt → State → GoMini.Out) :
@@ -195,7 +196,7 @@ theorem multiWrite_loop_matches_source (p : Bytes) (outs : List Writers.Out) (re
 theorem multiWrite_matches_source (p : Bytes) (outs : List Writers.Out) (fuel : Nat) :
     run X (fuel + 1) "Write" [.bytes p] [("ws", .list (sinksOf outs)), ("writes", .list [])] =
       .done [.int (multiWrite p outs).1, .list ((multiWrite p outs).2.map fun (i : Nat) => Val.int i)]
-        [("ws", .list (sinksOf outs)), ("writes", .list ((sinksOf outs).map fun s => Val.list [s, .bytes p]))] := by
+        [("ws", .list (sinksOf outs)), ("writes", .list ((sinksOf outs).map fun s => Val.list [traceName, s, .bytes p]))] := by
   refine run_of_fin X _ _ Gen.TransMultiWS.Write [.bytes p] _ _ _ rfl rfl ?_
   show (exec X (fuel + 1) Write_body ⟨[("p0", .bytes p)], _⟩).fin = _
   rw [exec_succ]
@@ -259,5 +260,37 @@ theorem multiSync_matches_source (errs : List Bool) (fuel : Nat) :
   obtain ⟨t, hl⟩ := multiSync_loop_matches_source errs (exec X fuel)
   simp only [sAbs, List.map_nil, List.append_nil] at hl
   simp [Sync_body, hl]
+
+end ZapVerif.C13
+
+/-! ## `lockedWriteSyncer.Write/Sync` ARE the source (table `Gen/TransLocked.lean`)
+
+`zapcore.Lock(ws)`: exactly one call of the wrapped `Write` (resp. `Sync`), with the caller's bytes, strictly between
+`Lock` and `Unlock`, and its results relayed unchanged (`lock_relays`). -/
+namespace ZapVerif.C13
+set_option linter.unusedSimpArgs false
+open ZapVerif ZapVerif.GoMini ZapVerif.TransLocked ZapVerif.Gen.TransLocked
+
+theorem lockedWriteSyncer_Write_matches_source (P : Par) (bs : Bytes) (n : Int) (werrs serrs ev : List Val) (fuel : Nat) :
+    run (X P) (fuel + 1) "lockedWriteSyncer_Write" [.bytes bs] (lkFld (TransLocked.sinkV n werrs serrs) ev) =
+      .done [.int n, .list werrs] (lkFld (TransLocked.sinkV n werrs serrs)
+        (ev ++ [.list [TransLocked.nm "Mutex.Lock"],
+                .list [TransLocked.nm "WriteSyncer.Write", TransLocked.sinkV n werrs serrs, .bytes bs],
+                .list [TransLocked.nm "Mutex.Unlock"]])) := by
+  refine run_of_fin (X P) _ _ Gen.TransLocked.lockedWriteSyncer_Write [.bytes bs] _ _ _ rfl rfl ?_
+  show (exec (X P) (fuel + 1) lockedWriteSyncer_Write_body ⟨[("p0", .bytes bs)], _⟩).fin = _
+  rw [exec_succ]
+  simp [lockedWriteSyncer_Write_body, nm_lock, nm_unlock, TransLocked.nm_wwrite]
+
+theorem lockedWriteSyncer_Sync_matches_source (P : Par) (n : Int) (werrs serrs ev : List Val) (fuel : Nat) :
+    run (X P) (fuel + 1) "lockedWriteSyncer_Sync" [] (lkFld (TransLocked.sinkV n werrs serrs) ev) =
+      .done [.list serrs] (lkFld (TransLocked.sinkV n werrs serrs)
+        (ev ++ [.list [TransLocked.nm "Mutex.Lock"],
+                .list [TransLocked.nm "WriteSyncer.Sync", TransLocked.sinkV n werrs serrs],
+                .list [TransLocked.nm "Mutex.Unlock"]])) := by
+  refine run_of_fin (X P) _ _ Gen.TransLocked.lockedWriteSyncer_Sync [] _ _ _ rfl rfl ?_
+  show (exec (X P) (fuel + 1) lockedWriteSyncer_Sync_body ⟨[], _⟩).fin = _
+  rw [exec_succ]
+  simp [lockedWriteSyncer_Sync_body, nm_lock, nm_unlock, TransLocked.nm_wsync]
 
 end ZapVerif.C13
